@@ -137,7 +137,9 @@ def load_registered_codemods(ep_filter: Optional[Callable[[EntryPoint], bool]] =
     registry = CodemodRegistry()
     logger.debug("loading registered codemod collections")
 
-    for entry_point in set(entry_points().select(group="codemods")):
+    # Remove duplicate entry points but keep their (deterministic) discovery order:
+    # iterating a set made the registry order depend on the hash seed
+    for entry_point in dict.fromkeys(entry_points().select(group="codemods")):
         if ep_filter and not ep_filter(entry_point):
             logger.debug(
                 '- skipping codemod collection "%s" from "%s as requested"',
